@@ -1636,10 +1636,34 @@ func startBgLoad(dir, name string, opts *redka.Options, total int, expired func(
 		cancel()
 	}
 	b.ready = time.Now()
+	if oneHandle {
+		// a client transaction is open on the handle when the tick comes (60 s after Open): the
+		// reclamation has to wait for the one connection and then run on it
+		b.extra++
+		b.wg.Add(1)
+		go func() {
+			defer b.wg.Done()
+			select {
+			case <-b.stop:
+				return
+			case <-time.After(time.Until(b.opened.Add(58500 * time.Millisecond))):
+			}
+			err := x.DB.Update(func(tx *redka.Tx) error {
+				if err := tx.Str().Set("held-across-the-tick", "1"); err != nil {
+					return err
+				}
+				time.Sleep(3 * time.Second)
+				return nil
+			})
+			if err != nil {
+				b.clientErrs.Add(1)
+			}
+		}()
+	}
 	if !load {
 		return b, nil
 	}
-	b.extra = 1
+	b.extra++
 	b.wg.Add(1)
 	go func() {
 		defer b.wg.Done()
